@@ -106,6 +106,38 @@ func checkConstIndexes(p *Prog, r *Result, pkg *packages.Package, rel string, ru
 				})
 				return hit
 			}
+			// x[i+K]: a bound on i alone (i < len(x)) does not cover it; the test must involve the offset itself
+			// (i+K < len(x), i < len(x)-K) or come from a helper that implies the length
+			needOffset := ""
+			if be, ok := idx.(*ast.BinaryExpr); ok && be.Op == token.ADD && kind == "offset" {
+				needOffset = exprString(be.Y)
+			}
+			baseTests := tests
+			if needOffset != "" {
+				idxText := strings.ReplaceAll(exprString(idx), " ", "")
+				tests = func(e ast.Node) bool {
+					if e == nil || !baseTests(e) {
+						return false
+					}
+					hit := false
+					ast.Inspect(e, func(n ast.Node) bool {
+						if be, ok := n.(*ast.BinaryExpr); ok {
+							switch be.Op {
+							case token.ADD:
+								if strings.ReplaceAll(exprString(be), " ", "") == idxText {
+									hit = true
+								}
+							case token.SUB:
+								if c, ok := ast.Unparen(be.X).(*ast.CallExpr); ok && isBuiltinCall(info, c, "len") && exprString(be.Y) >= needOffset {
+									hit = true
+								}
+							}
+						}
+						return !hit
+					})
+					return hit
+				}
+			}
 			guarded := underEdges(g, blk, func(e *FEdge) bool { return tests(e.Cond) || (e.Tag != nil && tests(e.Tag)) })
 			// a test earlier in the same && chain: len(x) > 0 && x[0] == …
 			if !guarded {
